@@ -154,6 +154,28 @@ class RigidKit(MonoidalKit):
         return None
 
 
+class WordKit(RigidKit):
+    """
+    Rigid diagrams whose boxes are, often, grammar words: box subclasses whose
+    constructor lists its arguments in another order (name, cod, dom=None).
+    """
+    def __init__(self, zmax=2):
+        super().__init__(zmax=zmax)
+        from discopy.grammar import pregroup, cfg
+        self.words = [pregroup.Word, pregroup.Word, cfg.Word]
+
+    def make_box(self, name, dom, cod, data):
+        if len(cod) and (not len(dom) or data is None and name in "fgh"):
+            cls = self.words[(len(name) + len(cod) + len(dom)) % 3]
+            if cls.__module__.endswith("cfg") and not isinstance(
+                    cod, cls.__init__.__globals__["Ty"]):
+                cls = self.words[0]
+            if len(dom):
+                return cls(name, cod, dom=dom, data=data)
+            return cls(name, cod, data=data)
+        return super().make_box(name, dom, cod, data)
+
+
 class TensorKit(MonoidalKit):
     """ tensor.Diagram over Dim types with numeric array boxes. """
     name = "tensor"
